@@ -53,6 +53,9 @@ fn ref_leb_encode(values: &[u64]) -> Vec<u8> {
 }
 
 /// equal bit patterns, a zero of either sign standing for "no value"
+/// Bit-exact, except that the two zeros are one value: the sparse form stores no zero at all and
+/// id lists chosen by field name hold unsigned integers, so the unchanged tree turns -0.0 into
+/// +0.0 in several places by design (tried strict: `sparse:dense-roundtrip [-0.0] -> [0.0]`).
 fn same_f32(a: f32, b: f32) -> bool {
     a.to_bits() == b.to_bits() || (a == 0.0 && b == 0.0)
 }
@@ -392,6 +395,9 @@ pub enum VecSpec {
     Bits(Vec<u32>),
     /// ascending powers of two starting at 2^(56+k): crosses 2^64
     Huge(Vec<u8>),
+    /// -0.0 followed by ascending integers: looks like an id list, but the sign of the zero is data
+    #[serde(alias = "NegZeroInts")]
+    NegZeroInts(Vec<u32>),
 }
 
 impl VecSpec {
@@ -405,6 +411,11 @@ impl VecSpec {
             VecSpec::UnsortedInts(v) => v.iter().map(|x| f32::from(*x)).collect(),
             VecSpec::Quarters(v) => v.iter().map(|x| f32::from(*x) / 4.0).collect(),
             VecSpec::Bits(v) => v.iter().map(|b| f32::from_bits(*b)).collect(),
+            VecSpec::NegZeroInts(v) => {
+                let mut v = v.clone();
+                v.sort_unstable();
+                std::iter::once(-0.0f32).chain(v.into_iter().map(|x| x as f32)).collect()
+            },
             VecSpec::Huge(v) => {
                 let mut e: Vec<u8> = v.iter().map(|x| x % 16).collect();
                 e.sort_unstable();
@@ -438,6 +449,7 @@ pub fn vec_spec() -> BoxedStrategy<VecSpec> {
         2 => proptest::collection::vec(-40i16..40, 0..6).prop_map(VecSpec::Quarters),
         2 => proptest::collection::vec(strat::f32_bits(), 0..6).prop_map(VecSpec::Bits),
         1 => proptest::collection::vec(any::<u8>(), 1..5).prop_map(VecSpec::Huge),
+        1 => proptest::collection::vec(0u32..400, 0..6).prop_map(VecSpec::NegZeroInts),
     ]
     .boxed()
 }
